@@ -217,23 +217,26 @@ Let Hrel : lvl_rel pc cur := el_rel pc cur L.
 Lemma eng_long tok f v a pi evaf :
   no_sub pc tok -> to_long tok = Some (f, true, v) -> get_long pc f = Some a ->
   shadow_step tok cur pi false ValueDone evaf =
-  SNext cur pi false (if a_takes_value a && is_none v then Opt a 1 else ValueDone) true.
+  SNext cur pi false (if a_takes_value a && is_none v && negb (a_req_eq a) then Opt a 1 else ValueDone) true.
 Proof.
   intros Hns Hl Hg. destruct (find_long_el pc cur f a L Hg) as [Hf [r [Hn Htv]]].
   unfold shadow_step. cbn [negb]. rewrite (eng_no_sub pc cur tok _ Hrel Hns).
   rewrite lex_is_escape, (to_long_not_escape _ _ Hl), opt_allows_hyphen_vd, lex_to_long, Hl.
-  cbn iota beta. rewrite Hf, Hn, Htv. destruct (a_takes_value a && is_none v); reflexivity.
+  cbn iota beta. rewrite Hf, Hn, Htv. destruct (a_takes_value a && is_none v && negb (a_req_eq a)); reflexivity.
 Qed.
 
 (** the value token of an option that awaits its single value *)
+Lemma is_value_terminator_check a v : is_value_terminator a v = check_terminator a v.
+Proof. reflexivity. Qed.
+
 Lemma eng_value v a r pi evaf :
   no_sub pc v -> is_escape v = false -> to_long v = None -> to_short v = None ->
-  a_num a = Some r -> r_accepts_more r 1 = false ->
+  a_num a = Some r -> r_accepts_more r 1 = false -> check_terminator a v = false ->
   shadow_step v cur pi false (Opt a 1) evaf = SNext cur pi false ValueDone evaf.
 Proof.
-  intros Hns He Hl Hs Hn Hacc. unfold shadow_step. cbn [negb]. rewrite (eng_no_sub pc cur v _ Hrel Hns).
+  intros Hns He Hl Hs Hn Hacc Ht. unfold shadow_step. cbn [negb]. rewrite (eng_no_sub pc cur v _ Hrel Hns).
   rewrite lex_is_escape, He, lex_to_long, Hl, lex_to_short, Hs.
-  unfold EngineModel.parse_opt_value. rewrite Hn. unfold r_accepts_more in Hacc. rewrite Hacc.
+  unfold EngineModel.parse_opt_value. rewrite is_value_terminator_check, Ht, Hn. unfold r_accepts_more in Hacc. rewrite Hacc.
   destruct (opt_allows_hyphen (Opt a 1) v); reflexivity.
 Qed.
 
@@ -248,13 +251,13 @@ Lemma eng_short_opt tok r ch r' a pi evaf :
   no_sub pc tok -> is_escape tok = false -> to_long tok = None -> to_short tok = Some r ->
   sf_next r = Some (inl ch, r') -> get_short pc ch = Some a -> a_takes_value a = true ->
   shadow_step tok cur pi false ValueDone evaf =
-  SNext cur pi false (if is_nil r' then Opt a 1 else ValueDone) true.
+  SNext cur pi false (if is_nil r' && negb (a_req_eq a) then Opt a 1 else ValueDone) true.
 Proof.
   intros Hns He Hl Hs Hnx Hg Htv. destruct (find_short_el pc cur ch a L Hg) as [Hf [r0 [Hn Htv']]].
   unfold shadow_step. cbn [negb]. rewrite (eng_no_sub pc cur tok _ Hrel Hns).
   rewrite lex_is_escape, He, opt_allows_hyphen_vd, lex_to_long, Hl, lex_to_short, Hs.
   unfold parse_shortflags. cbn [parse_shortflags_loop]. rewrite (next_flag_sf _ _ _ Hnx), Hf, Hn, Htv', Htv.
-  destruct r'; reflexivity.
+  destruct r'; destruct (a_req_eq a); reflexivity.
 Qed.
 
 (** `-abc`: ASCII flags none of which takes a value *)
@@ -315,11 +318,13 @@ Proof.
   - (* --opt=v *) cbn [shadow_run]. rewrite (eng_long tok f (Some v) a pi evaf) by assumption.
     cbn [is_none]. rewrite andb_false_r. reflexivity.
   - (* --opt v *) cbn [shadow_run]. rewrite (eng_long tok f None a pi evaf) by assumption.
-    match goal with H : a_takes_value a = true |- _ => rewrite H end. cbn [is_none andb].
+    match goal with H : a_takes_value a = true |- _ => rewrite H end.
+    match goal with H : a_req_eq a = false |- _ => rewrite H end. cbn [is_none andb negb].
     rewrite (eng_value v a r pi true) by assumption. reflexivity.
   - (* -abc *) cbn [shadow_run]. rewrite (eng_cluster tok os pi evaf) by assumption. reflexivity.
   - (* -ov *) cbn [shadow_run]. rewrite (eng_short_opt tok r ch (b :: t) a pi evaf) by assumption. reflexivity.
-  - (* -o v *) cbn [shadow_run]. rewrite (eng_short_opt tok r0 ch [] a pi evaf) by assumption. cbn [is_nil].
+  - (* -o v *) cbn [shadow_run]. rewrite (eng_short_opt tok r0 ch [] a pi evaf) by assumption.
+    match goal with H : a_req_eq a = false |- _ => rewrite H end. cbn [is_nil andb negb].
     rewrite (eng_value v a r pi true) by assumption. reflexivity.
 Qed.
 
@@ -775,8 +780,8 @@ Proof.
   intros L Hp Ho. split.
   - intros pi vaf. rewrite shadow_run_app, (eng_prefix pc cur L pre F Hp). cbn [shadow_run].
     destruct Ho as [tok f a Hns Hl Hg Htv Hre|tok r ch a Hns He Hl Hs Hn Hg Htv Hre Hnh].
-    + rewrite (eng_long pc cur L tok f None a pi _ Hns Hl Hg), Htv. reflexivity.
-    + rewrite (eng_short_opt pc cur L tok r ch [] a pi _ Hns He Hl Hs Hn Hg Htv). reflexivity.
+    + rewrite (eng_long pc cur L tok f None a pi _ Hns Hl Hg), Htv, Hre. reflexivity.
+    + rewrite (eng_short_opt pc cur L tok r ch [] a pi _ Hns He Hl Hs Hn Hg Htv), Hre. reflexivity.
   - intros rest pos vaf st Hfs. rewrite (loop_prefix pc pre F Hp (tok :: rest) pos vaf st Hfs).
     destruct (F st) as [st'|e1 s1|x] eqn:EF; cbn [rbind]; try reflexivity.
     assert (Hfs' : fs_skip st' = 0) by (rewrite (prefix_fs pc pre F Hp _ _ EF); exact Hfs).
@@ -933,47 +938,68 @@ End LineExample.
 
 (** * Part 6: class boundaries, with witnesses (replayed on the real crate, see docs/notes/C18.md) *)
 
-(** [require_equals]: the engine has no model of it.  `p --opt <TAB>` with `--opt` = Set, num_args(0..=1),
-    require_equals(true), possible value `va`: the engine stands in [Opt] and offers `va`; for the parser
-    `--opt` (without `=`) is a complete occurrence, the next word starts a new argument, and the completed
-    line `p --opt va` is rejected with UnknownArgument.  (The hypothesis [a_req_eq a = false] of the items
-    `--opt v` / `-o v` and of [open_tok] cannot be dropped.) *)
+(** [require_equals] - finding C18-require-equals, BEFORE / AFTER the repair (docs/pending/engine_require_equals_fix.diff).
+    `p(--pf; --opt[=<v>] Set, num_args(0..=1), require_equals, possible value `va`) -> sub(--so)`.  For the parser `--opt` without
+    `=` is a COMPLETE occurrence ([Parser::parse_opt_value]: `require_equals` and no `=` - with a minimum of 0 the occurrence is
+    stored without values, otherwise the line is rejected: NoEquals); the next word starts a new argument: `p --opt sub` is
+    accepted at `sub`.  Before the repair the engine waited for a value behind `--opt`: `p --opt <TAB>` offered the value `va`
+    (`p --opt va`: InvalidSubcommand), and behind `p --opt sub` it stood at `p` (`sub` counted as the value) and offered `--pf`
+    (id arg::pf) - `p --opt sub --pf`: UnknownArgument.  After: [ValueDone] behind `--opt`, `va` is not offered; behind
+    `p --opt sub` the engine is at `sub`, offers `--so`, not `--pf`.  (Same on the real crate:
+    corpus/C18/accept.require-equals.cases.  The hypothesis [a_req_eq a = false] of the items `--opt v` / `-o v` and of
+    [open_tok] is what keeps the separate-value forms apart.) *)
 Module ReqEq.
 Definition w_opt : bytes := [111; 112; 116].
 Definition w_va : bytes := [118; 97].
+Definition w_pf : bytes := [112; 102].
+Definition w_sub : bytes := [115; 117; 98].
+Definition w_so : bytes := [115; 111].
+Definition dd (w : bytes) : bytes := 45 :: 45 :: w.
 Definition c0 : cmd :=
   (cmd_new [112])
-    <| c_args := [ (arg_new w_opt) <| a_long := Some w_opt |> <| a_action := Some ASet |>
-                     <| a_num := Some {| vmin := 0; vmax := 1 |} |> <| a_req_eq := true |> ] |>.
+    <| c_args := [ (arg_new w_pf) <| a_long := Some w_pf |> <| a_action := Some ASetTrue |>;
+                   (arg_new w_opt) <| a_long := Some w_opt |> <| a_action := Some ASet |>
+                     <| a_num := Some {| vmin := 0; vmax := 1 |} |> <| a_req_eq := true |> ] |>
+    <| c_subs := [ (cmd_new w_sub) <| c_args := [ (arg_new w_so) <| a_long := Some w_so |> <| a_action := Some ASetTrue |> ] |> ] |>.
 Definition tbl : pvtable := [(w_opt, [(w_va, false)])].
-Definition line : list bytes := [45 :: 45 :: w_opt].
+Definition has_cand (v : bytes) (i : option cid) (r : cres) : bool :=
+  match r with COk l => existsb (fun cd => beq (cd_value cd) v && opt_cid_eqb (cd_id cd) i) l | _ => false end.
+Definition stands (w : walk) : option (bytes * N) :=
+  match w with
+  | WAt _ cur _ ValueDone false _ => Some (c_name cur, 0)
+  | WAt _ cur _ (Opt _ k) false _ => Some (c_name cur, k)
+  | _ => None end.
+Definition walk_at (args : list bytes) (i : N) : option (bytes * N) :=
+  match build_full (build_fuel c0) c0 with BOk b => stands (start_walk b args i) | _ => None end.
+Definition walk_at_before (args : list bytes) (i : N) : option (bytes * N) :=
+  match build_full (build_fuel c0) c0 with BOk b => stands (start_walk_before_reqfix b args i) | _ => None end.
+Definition kind_of (o : outcome) : option ekind := match o with OErr e => Some (e_kind e) | _ => None end.
+Definition chain_of (o : outcome) : option (list bytes) := match o with OOk m => Some (Globals.chain m) | _ => None end.
 End ReqEq.
 
-Definition reqeq_b : cmd := match build_full (build_fuel ReqEq.c0) ReqEq.c0 with BOk b => b | _ => cmd_new [] end.
-Definition reqeq_a : arg := match c_args reqeq_b with a :: _ => a | [] => arg_new [] end.
-Definition reqeq_l : list cand :=
-  match complete_model ReqEq.tbl ReqEq.c0 ([112] :: ReqEq.line ++ [[]]) 2 with COk l => l | _ => [] end.
-Definition reqeq_m : matches := match parse_top ReqEq.c0 ([112] :: ReqEq.line) with OOk m => m | _ => Matches [] None end.
-Definition reqeq_e : error :=
-  match parse_top ReqEq.c0 ([112] :: ReqEq.line ++ [ReqEq.w_va]) with OErr e => e | _ => mkError EDisplayHelp [] false [] None end.
-
-Theorem require_equals_refuted : exists tbl c0 bin line cd,
-  (* the line itself is fine for the parser *)
-  (exists m, parse_top c0 (bin :: line) = OOk m) /\
-  (* the engine awaits a value of an option that requires `=` ... *)
-  (exists b cur a, build_full (build_fuel c0) c0 = BOk b /\
-     start_walk b (bin :: line ++ [[]]) (N.of_nat (S (length line))) = WAt [] cur 1 (Opt a 1) false true /\ a_req_eq a = true) /\
-  (* ... offers a value candidate ... *)
-  (exists l, complete_model tbl c0 (bin :: line ++ [[]]) (N.of_nat (S (length line))) = COk l /\ In cd l) /\
-  (* ... and the completed line is rejected: unknown argument *)
-  (exists e, parse_top c0 (bin :: line ++ [cd_value cd]) = OErr e /\ e_kind e = EUnknownArgument).
-Proof.
-  exists ReqEq.tbl, ReqEq.c0, [112], ReqEq.line, (mkCand ReqEq.w_va None false).
-  split; [exists reqeq_m; vm_compute; reflexivity|].
-  split; [exists reqeq_b, reqeq_b, reqeq_a; split; [vm_compute; reflexivity|split; vm_compute; reflexivity]|].
-  split; [exists reqeq_l; split; [vm_compute; reflexivity|vm_compute; left; reflexivity]|].
-  exists reqeq_e. split; vm_compute; reflexivity.
-Qed.
+Theorem require_equals_before_after :
+  (* the parser *)
+  ReqEq.chain_of (parse_top ReqEq.c0 [[112]; ReqEq.dd ReqEq.w_opt]) = Some [] /\
+  ReqEq.chain_of (parse_top ReqEq.c0 [[112]; ReqEq.dd ReqEq.w_opt; ReqEq.w_sub]) = Some [ReqEq.w_sub] /\
+  ReqEq.kind_of (parse_top ReqEq.c0 [[112]; ReqEq.dd ReqEq.w_opt; ReqEq.w_va]) = Some EInvalidSubcommand /\
+  ReqEq.kind_of (parse_top ReqEq.c0 [[112]; ReqEq.dd ReqEq.w_opt; ReqEq.w_sub; ReqEq.dd ReqEq.w_pf]) = Some EUnknownArgument /\
+  ReqEq.chain_of (parse_top ReqEq.c0 [[112]; ReqEq.dd ReqEq.w_opt; ReqEq.w_sub; ReqEq.dd ReqEq.w_so]) = Some [ReqEq.w_sub] /\
+  (* before *)
+  ReqEq.walk_at_before [[112]; ReqEq.dd ReqEq.w_opt; []] 2 = Some ([112], 1) /\
+  ReqEq.has_cand ReqEq.w_va None (complete_model_before_reqfix ReqEq.tbl ReqEq.c0 [[112]; ReqEq.dd ReqEq.w_opt; []] 2) = true /\
+  ReqEq.walk_at_before [[112]; ReqEq.dd ReqEq.w_opt; ReqEq.w_sub; [45; 45]] 3 = Some ([112], 0) /\
+  ReqEq.has_cand (ReqEq.dd ReqEq.w_pf) (Some (IdArg ReqEq.w_pf))
+    (complete_model_before_reqfix ReqEq.tbl ReqEq.c0 [[112]; ReqEq.dd ReqEq.w_opt; ReqEq.w_sub; [45; 45]] 3) = true /\
+  (* after *)
+  ReqEq.walk_at [[112]; ReqEq.dd ReqEq.w_opt; []] 2 = Some ([112], 0) /\
+  ReqEq.has_cand ReqEq.w_va None (complete_model ReqEq.tbl ReqEq.c0 [[112]; ReqEq.dd ReqEq.w_opt; []] 2) = false /\
+  ReqEq.has_cand ReqEq.w_sub (Some (IdCmd ReqEq.w_sub)) (complete_model ReqEq.tbl ReqEq.c0 [[112]; ReqEq.dd ReqEq.w_opt; []] 2) = true /\
+  ReqEq.walk_at [[112]; ReqEq.dd ReqEq.w_opt; ReqEq.w_sub; [45; 45]] 3 = Some (ReqEq.w_sub, 0) /\
+  ReqEq.has_cand (ReqEq.dd ReqEq.w_pf) (Some (IdArg ReqEq.w_pf))
+    (complete_model ReqEq.tbl ReqEq.c0 [[112]; ReqEq.dd ReqEq.w_opt; ReqEq.w_sub; [45; 45]] 3) = false /\
+  ReqEq.has_cand (ReqEq.dd ReqEq.w_so) (Some (IdArg ReqEq.w_so))
+    (complete_model ReqEq.tbl ReqEq.c0 [[112]; ReqEq.dd ReqEq.w_opt; ReqEq.w_sub; [45; 45]] 3) = true.
+Proof. vm_compute. repeat split; reflexivity. Qed.
 
 (** completeness of option candidates needs [a_long a <> None]: a VISIBLE alias `--opt` of an option without a
     long name (a key of the parser: [get_long] resolves it) extends the word `--` but no candidate carries
